@@ -175,6 +175,11 @@ def check(ctx, facts, stream_adt, rule='finaliser-bypass', state_field='state'):
         return 1, None
     bad = 0
     short = stream_adt.rsplit('::', 1)[-1]
+    for fstate in sorted(m['F']):
+        if fstate not in m['G']:
+            bad += 1
+            ctx.fail(rule, '%s.%s' % (short, fstate), stream_adt, 'the finaliser state %s has a handler but no transition enters it any more: its finalisation is never run' % fstate,
+                     key='%s|%s.%s|never-entered' % (rule, short, fstate))
     for fstate, g in sorted(m['G'].items()):
         if not g:
             ctx.skip(rule, '%s.%s' % (short, fstate), 'no condition over self is common to all paths entering this finaliser state')
